@@ -230,7 +230,18 @@ ACTION_CONSTRAINT Emit
 """
 
 
+SPEC_MUTANTS = {
+    "cbg": [("energy-setter-does-not-recompute", 'THEN {} ELSE {"efun"}', 'THEN {} ELSE {}'),
+            ("polarization-setter-does-not-recompute", 'IF p = "polarization" THEN {"polfun"}', 'IF p = "polarization" THEN {}')],
+    "gaussspec": [("spectrum-setter-does-not-rebin", 'Recomputes(p) == IF IsSpectrum THEN {"binned"}', 'Recomputes(p) == IF IsSpectrum THEN {}'),
+                  ("refused-value-assigned", "    /\\ outcome' = \"ValueError\"\n    /\\ UNCHANGED <<par, cache>>", "    /\\ outcome' = \"ValueError\"\n    /\\ par' = [par EXCEPT ![p] = 1] /\\ UNCHANGED cache")],
+}
+
+
 def run(v):
+    if v.tier == "thorough":
+        from . import specmut
+        v.notes["spec_mutants"] = {k: specmut.audit("LaserObjects", CFG.format(kind=k, maxhist=2).replace("ACTION_CONSTRAINT Emit\n", ""), m) for k, m in SPEC_MUTANTS.items()}
     depth = 3 if v.tier == "quick" else 4
     for kind in KINDS:
         res = core.run_tlc("LaserObjects", CFG.format(kind=kind, maxhist=depth), workers=1, seed=v.seed, tag="C18-" + kind, timeout=3000)
